@@ -305,7 +305,11 @@ def _mk_trace(tid, r, nops, thorough):
     if tid % 7 == 0:   # extents behind one VMDK object: several of them, via handles or a descriptor (requests crossing from one into the next)
         import importlib
         return importlib.import_module("props.c10").make_trace(tid, r, nops)
-    return make_trace(tid, r, nops, many=("mid" if tid % 8 == 0 else None))
+    return make_trace(tid, r, nops, many=diskprop.many_of(tid))
+
+
+def trace_for(tid, r, thorough):
+    return _mk_trace(tid, r, 40 if thorough else 25, thorough)
 
 
 def run(ctx):
@@ -339,7 +343,7 @@ def replay(ctx, body):
         return not r.violated
     if d.get("kind") in ("trace", "trace-gen"):
         tid = d.get("tid") or d["trace"]["tid"]
-        t = make_trace(tid, random.Random(body["seed"] * 9176 + tid), 40 if body.get("tier") == "thorough" else 25)
+        t = trace_for(tid, random.Random(body["seed"] * 9176 + tid), body.get("tier") == "thorough")
         v, _ = tracecheck.validate("TraceDisk", "TraceDisk.cfg", [t])
         print(v)
         return v[tid][0] == "accept"
